@@ -696,6 +696,9 @@ func cmdReplay(args []string) int {
 	if len(args) < 1 {
 		usage()
 	}
+	if len(args) >= 2 && args[0] == "-engine" {
+		return cmdEngineReplay(args[1])
+	}
 	ok, out := nativeReplay(args[0])
 	fmt.Print(out)
 	if ok {
@@ -912,4 +915,60 @@ func TestZZWitness(t *testing.T) {
 		return nil, fmt.Errorf("%s", lastLines(string(out), 4))
 	}
 	return res, nil
+}
+
+// cmdEngineReplay re-executes a counterexample file in the engine's concrete
+// mode (model values and recorded picks/scheduling decisions), printing the
+// scheduling events and the assertions that fail.
+func cmdEngineReplay(file string) int {
+	b, err := os.ReadFile(file)
+	if err != nil {
+		fmt.Println(err)
+		return 2
+	}
+	var doc struct {
+		Pkg     string          `json:"pkg"`
+		Harness string          `json:"harness"`
+		Params  []int           `json:"params"`
+		Assert  string          `json:"assert"`
+		Model   map[string]any  `json:"model"`
+		Flags   map[string]bool `json:"flags"`
+	}
+	if err := json.Unmarshal(b, &doc); err != nil {
+		fmt.Println(err)
+		return 2
+	}
+	ld, err := Load(doc.Pkg)
+	if err != nil {
+		fmt.Println(err)
+		return 2
+	}
+	cfg := RunConfig{Pkg: doc.Pkg, Harness: doc.Harness, Params: doc.Params, Unwind: 1 << 20, Flags: doc.Flags, Replay: doc.Model}
+	if cfg.Flags == nil {
+		cfg.Flags = map[string]bool{}
+	}
+	e, err := NewEngine(ld, cfg)
+	if err != nil {
+		fmt.Println(err)
+		return 2
+	}
+	defer e.Close()
+	res := e.Run()
+	hit := false
+	for _, x := range res.Violations {
+		fmt.Printf("FAILED assert=%s %s %s\n", x.AssertID, x.Pos, x.Msg)
+		for _, t := range x.Trace {
+			fmt.Println("   ", t)
+		}
+		if x.AssertID == doc.Assert {
+			hit = true
+		}
+	}
+	fmt.Println("paths:", res.Paths, "inconclusive:", res.Inconclusive, "reach:", res.Reach)
+	if hit {
+		fmt.Println("REPRODUCED (engine-concrete)")
+		return 1
+	}
+	fmt.Println("NOT REPRODUCED (engine-concrete)")
+	return 0
 }
